@@ -63,6 +63,14 @@ Definition lm (tol : Qc) (m : res (list Qc)) (o : obs (list Qc)) : bool := res_m
 
     # ------------------------------------------------------------------ generation
     def gen(self, rng, tier):
+        cases = self._gen(rng, tier)
+        for c in cases:
+            if rng.random() < 0.25:
+                c["y"] = [float(rng.randint(-9, 9)) for _ in c["y"]]
+                c["int_y"] = True
+        return cases
+
+    def _gen(self, rng, tier):
         cases = []
         k = 120 if tier == "quick" else 1500
         big = tier != "quick"
@@ -146,7 +154,10 @@ Definition lm (tol : Qc) (m : res (list Qc)) (o : obs (list Qc)) : bool := res_m
     def run(self, c):
         import traffic_weaver.match as M
         x = np.array(c["x"], dtype=float)
-        y = np.array(c["y"], dtype=float)
+        if c.get("int_y") and all(float(v).is_integer() for v in c["y"]):
+            y = np.array([int(v) for v in c["y"]], dtype=np.int64)      # integer-typed values (counts)
+        else:
+            y = np.array(c["y"], dtype=float)
         y0 = y.copy()
         try:
             with warnings.catch_warnings():
